@@ -203,6 +203,7 @@ def handle (op : String) (j : Json) : Option Json :=
                  ("requested", requestedOk d r fin),
                  ("schema", schemaOk r o),
                  ("address", addressOk r.column stmts),
+                 ("constraints", constraintOk r stmts),
                  ("plain", plainDefaults r),
                  ("final", stateToJson fin)])
     | _, _, _, _ => some (errJ "bad-op")
